@@ -14,6 +14,7 @@ PROPS = ["C%02d" % i for i in range(1, 21) if i != 17]
 
 
 def one(path):
+    path = os.path.abspath(path)
     tmp = tempfile.mkdtemp(prefix="cklrefac-")
     try:
         shutil.copytree("/repo/src", os.path.join(tmp, "src"), ignore=shutil.ignore_patterns("__pycache__", "*.egg-info"))
@@ -37,7 +38,7 @@ def one(path):
 
 
 def main():
-    paths = sorted(sys.argv[1:] or glob.glob(os.path.join(HERE, "refactors", "*.diff")))
+    paths = sorted(sys.argv[1:] or glob.glob(os.path.join(HERE, "refactors", "*", "*.diff")))
     with ProcessPoolExecutor(max_workers=8) as ex:
         for path, st, out in ex.map(one, paths):
             name = "/".join(path.split("/")[-2:])
